@@ -29,7 +29,7 @@ import struct
 S_CLOSED, S_CONNECTING, S_CLOSING, S_OPEN = 0, 1, 2, 3
 RANK = {S_CONNECTING: 0, 4: 0, S_OPEN: 1, S_CLOSING: 2, S_CLOSED: 3}
 
-LONG_REASON = ("€" * 50) + "xx" + ("é" * 30)    # 150+2+60 octets: cut falls inside multi-byte chars
+LONG_REASON = "x" + ("€" * 60)    # 1+180 octets: octet 123 falls inside a 3-octet code point
 
 
 def configs(tier):
@@ -71,6 +71,8 @@ def main(ctx):
         # biggest first for better packing
         jobs.sort(key=lambda j: -j["depth"])
         ctx.pmap({"fw": fw, "nvx": "1"}, "props.c05:job", jobs)
+        ctx.pmap({"fw": fw, "nvx": "1"}, "props.c05:job_reasons",
+                 [{"role": r} for r in ("server", "client")])
     ctx.coverage["states"] = int(ctx.counters["states"])
     ctx.coverage["transitions"] = int(ctx.counters["transitions"])
     ctx.coverage["traces_validated_against_impl"] = int(ctx.counters["transitions"])
@@ -78,7 +80,7 @@ def main(ctx):
     for n in ("states", "transitions", "bounded_time_runs", "reached:onclose_clean",
               "reached:onclose_unclean", "reached:close_timer_fired", "reached:peer_close_while_closing",
               "reached:closeframe_sent", "reached:own_drop_delivered", "reached:data_after_our_close_ignored",
-              "reached:sendclose_while_closing", "reached:connecting_lost"):
+              "reached:sendclose_while_closing", "reached:connecting_lost", "reason_cases"):
         ctx.require(n)
 
 
@@ -532,6 +534,76 @@ def job(a):
         stats["reached:" + r] = 1
     return {"evals": stats["transitions"], "viol": viol, "stats": stats,
             "samples": [sample] if sample else []}
+
+
+def job_reasons(a):
+    """close reasons of every length around the 123-octet limit built from 1-, 2-, 3- and 4-octet
+    code points at every alignment: the close frame's reason must be valid UTF-8 of <= 123 octets and
+    a prefix of the requested reason; also through echoCloseCodeReason and a failing peer"""
+    from harness import ws
+    from ref import ws_frames as F
+    from mc import worker
+    env = worker.ENV
+    role = a["role"]
+    viol = []
+    n = 0
+    seen = {}
+    mask = b"\x01\x02\x03\x04" if role == "server" else None
+    for ch in ("a", "é", "€", "\U0001F600"):
+        w = len(ch.encode("utf8"))
+        for pad in range(0, 4):
+            for total in (100, 121, 122, 123, 124, 125, 126, 127, 200, 1000):
+                k = max(0, (total - pad) // w)
+                reason = "p" * pad + ch * k
+                for mode in ("sendClose", "echo"):
+                    ep = ws.open_endpoint(role, {"echoCloseCodeReason": mode == "echo", "failByDrop": False})
+                    start = len(ep.t.written)
+                    try:
+                        if mode == "sendClose":
+                            ep.proto.sendClose(3000, reason)
+                        else:
+                            r = reason.encode("utf8")[:123]
+                            while True:
+                                try:
+                                    r.decode("utf8")
+                                    break
+                                except UnicodeDecodeError:
+                                    r = r[:-1]
+                            ep.feed(F.encode(8, F.close_payload(3001, r), mask=mask))
+                            reason = r.decode("utf8")
+                    except Exception as e:
+                        viol.append({"sig": "C05|reason|api-error|%s" % role, "desc": repr(e),
+                                     "replay": {"env": {"fw": env.get("fw"), "nvx": "1"},
+                                                "func": "props.c05:job_reasons", "arg": a}})
+                        continue
+                    n += 1
+                    frames, _ = F.parse_frames(bytes(ep.t.written[start:]))
+                    closes = [f for f in frames if f.opcode == 8]
+                    prob = None
+                    if len(closes) != 1:
+                        prob = ("close-count", str(len(closes)))
+                    else:
+                        pl = closes[0].payload[2:]
+                        if len(pl) > 123:
+                            prob = ("close-reason-too-long", str(len(pl)))
+                        else:
+                            try:
+                                got = pl.decode("utf8")
+                                if not reason.startswith(got) or (len(reason.encode("utf8")) <= 123 and got != reason):
+                                    prob = ("close-reason-altered", "%r vs %r" % (got[:20], reason[:20]))
+                                elif len(reason.encode("utf8")) > 123 and len(pl) < 120:
+                                    prob = ("close-reason-truncated-too-much", str(len(pl)))
+                            except UnicodeDecodeError:
+                                prob = ("close-reason-not-utf8", pl[-6:].hex())
+                    if prob:
+                        sig = "C05|%s|%s|%s" % (prob[0], mode, role)
+                        seen[sig] = seen.get(sig, 0) + 1
+                        if seen[sig] <= 2:
+                            viol.append({"sig": sig, "desc": "[%s fw=%s] %s reason=%d x %r + %d pad: %s" % (
+                                role, env.get("fw"), mode, k, ch, pad, prob[1]),
+                                "replay": {"env": {"fw": env.get("fw"), "nvx": "1"},
+                                           "func": "props.c05:job_reasons", "arg": a}})
+    return {"evals": n, "viol": viol, "stats": {"reason_cases": n}}
 
 
 def replay(a):
